@@ -621,11 +621,22 @@ impl Session {
             )
         })?;
 
+        // Validate and commit in the transaction manager first: a refused commit
+        // must leave none of the transaction's changes behind.
+        let commit_epoch = match self.tx_manager.commit(tx_id) {
+            Ok(epoch) => epoch,
+            Err(e) => {
+                self.store.discard_uncommitted_versions(tx_id);
+                #[cfg(feature = "rdf")]
+                self.rdf_store.rollback_tx(tx_id);
+                let _ = self.tx_manager.abort(tx_id);
+                return Err(e);
+            }
+        };
+
         // Commit RDF store pending operations
         #[cfg(feature = "rdf")]
         self.rdf_store.commit_tx(tx_id);
-
-        let commit_epoch = self.tx_manager.commit(tx_id)?;
 
         // Keep the store's own epoch in step with the transaction manager: entities are
         // versioned with manager epochs, and the store-epoch read paths must see them.
